@@ -108,6 +108,12 @@ def run(ctx, chk):
     sub9 = Sub(chk, "C18/transport", lambda r: r in ("C09-a/reset-on-failure", "C09-b/keep-on-success", "C09-b/reconnect-only-when-dead"))
     rules_c09.retry(sub9, crate)
     chk.floor("retry-wrapper obligations (shared with C09)", sub9.count, 3)
+    # ... and the status reaches the client through read_packet: a reply that is framed wrongly (extended length header
+    # dropped, body cut short) is not "the data the terminal reports" - the C04-b/d clauses
+    import rules_c04
+    sub4 = Sub(chk, "C18/transport", lambda r: r.startswith(("C04-b/", "C04-d/")))
+    rules_c04.run(ctx, sub4)
+    chk.floor("read_packet framing obligations (shared with C04)", sub4.count, 5)
     chk.floor("C18 obligations", len(chk.obligations), 14)
 
 
